@@ -555,6 +555,16 @@ class CountingFile:
         self.closed = False
 
     def write(self, data):
+        if (self.st.kill and getattr(self.st, 'split', False) and self.st.armed and self.st.fail_after is not None
+                and self.st.count >= self.st.fail_after and len(data) > 1 and not self.st.commit_at_close):
+            # the writer dies in the middle of this write call: the first half of the data reached the file
+            self.f.write(data[:len(data) // 2])
+            for f in self.st.open_files:
+                try:
+                    f.flush()
+                except Exception:
+                    pass
+            os._exit(9)
         self.st.before('write')
         if self.st.commit_at_close:
             # like an object store: nothing is durable before close() (which may fail)
@@ -595,9 +605,10 @@ class FaultyStorage(Storage):
     """LocalStorage that performs mkdir and open as two separate effects, counts effects, and stops the writer
     (exception, or os._exit for kills) once `fail_after` effects have completed."""
 
-    def __init__(self, inner, fail_after=None, kill=False, flushed=True, exc='exception', commit_at_close=False, root=None):
+    def __init__(self, inner, fail_after=None, kill=False, flushed=True, exc='exception', commit_at_close=False, root=None,
+                 split=False, term=False):
         self.inner, self.fail_after, self.kill, self.flushed, self.exc = inner, fail_after, kill, flushed, exc
-        self.root = root
+        self.root, self.split, self.term = root, split, term
         self.commit_at_close = commit_at_close
         self.count = 0
         self.trace = []
@@ -623,6 +634,13 @@ class FaultyStorage(Storage):
                             f.flush()
                         except Exception:
                             pass
+                if self.term:
+                    # what ProcessExecutor.stop() does to a worker on the second interrupt: SIGTERM, default disposition
+                    import signal
+                    import time
+                    signal.signal(signal.SIGTERM, signal.SIG_DFL)
+                    os.kill(os.getpid(), signal.SIGTERM)
+                    time.sleep(10)
                 os._exit(9)
             if self.exc == 'interrupt':
                 raise KeyboardInterrupt(f'injected before {kind} after {self.count} effects')
@@ -712,9 +730,9 @@ def _inner_storage(d, kind):
     return LocalFsspec(os.path.join(d, 's')) if kind == 'fsspec' else LocalStorage(os.path.join(d, 's'))
 
 
-def _child_save(d, cache_kind, shape, n, flushed, inner_kind='local'):
+def _child_save(d, cache_kind, shape, n, flushed, inner_kind='local', split=False, term=False):
     logging.getLogger('labtech').setLevel(logging.CRITICAL)
-    st = FaultyStorage(_inner_storage(d, inner_kind), fail_after=n, kill=True, flushed=flushed, root=os.path.join(d, 's'))
+    st = FaultyStorage(_inner_storage(d, inner_kind), fail_after=n, kill=True, flushed=flushed, root=os.path.join(d, 's'), split=split, term=term)
     lab = Lab(storage=st, continue_on_failure=True, runner_backend='serial', notebook=False)
     lab.run_tasks([fault_task(cache_kind, shape)], bust_cache=True, disable_progress=True, disable_top=True)
     os._exit(0)
@@ -791,7 +809,8 @@ def run_fault(fc):
         reported_failed = None
         if fc['crash']:
             ctx = multiprocessing.get_context('fork')
-            p = ctx.Process(target=_child_save, args=(d, fc['cache'], fc['shape'], fc['n'], fc['flushed'], fc.get('inner', 'local')))
+            p = ctx.Process(target=_child_save, args=(d, fc['cache'], fc['shape'], fc['n'], fc['flushed'], fc.get('inner', 'local'),
+                                                      bool(fc.get('split')), bool(fc.get('term'))))
             p.start()
             p.join(60)
         else:
@@ -878,6 +897,12 @@ def run_faults(prop, report, tier, seed, replay=None):
                 for overwrite, old in ((False, None), (True, 'small'), (True, 'large')):
                     for flushed in ((True, False) if crash else (True,)):
                         fcs.append(dict(cache=cache, shape=shape, n=n, overwrite=overwrite, old=old, crash=crash, flushed=flushed))
+                    if crash and n < len(trace) and old != 'large':
+                        # the writer is terminated by SIGTERM (what the second interrupt does) instead of dying on the spot
+                        fcs.append(dict(cache=cache, shape=shape, n=n, overwrite=overwrite, old=old, crash=True, flushed=False, term=True))
+                        if trace[n] == 'write':
+                            # ... or dies in the middle of the write call that would have been effect n+1
+                            fcs.append(dict(cache=cache, shape=shape, n=n, overwrite=overwrite, old=old, crash=True, flushed=True, split=True))
                     if shape == 'small' and old != 'large':
                         # the same point on an fsspec-backed storage; and (exceptions only) the fault is a KeyboardInterrupt
                         fcs.append(dict(cache=cache, shape=shape, n=n, overwrite=overwrite, old=old, crash=crash, flushed=True, inner='fsspec'))
@@ -913,7 +938,7 @@ def run_faults(prop, report, tier, seed, replay=None):
             sig = f'{prop}:{crash_class(fc, trace)}' if crash else f'{prop}:{bad[0]}'
             report.violation(sig, f"{bad[1]} [{crash_class(fc, trace)}; cache={fc['cache']}, result={fc['shape']}, effects completed={fc['n']}, flushed={fc['flushed']}]",
                              dict(fault=fc, observed=obs))
-        if fc['n'] < len(trace) or crash:
+        if (fc['n'] < len(trace) or crash) and not fc.get('split'):
             terms.append(emit_fcase(fc, obs, wm, wd))
             kept.append((fc, obs))
     # every executed line of the save path (cache.py / storage.py while BaseCache.save is on the stack): an exception, or a
@@ -968,7 +993,7 @@ def run_faults(prop, report, tier, seed, replay=None):
         traces_validated_against_impl=len(terms), correspondence_mismatches=len(bad),
         rule=('every storage-effect boundary of a save (mkdir, open, each write call, close; metadata then data) x result '
               'shape (small, multi-frame, unpicklable at depth) x cache format (PickleCache, a JSON BaseCache) x first save / '
-              'overwrite' + (' x buffered data lost / flushed; the writer is a forked process ended by os._exit' if crash else
+              'overwrite' + (' x buffered data lost / flushed; the writer is a forked process ended by os._exit, by SIGTERM (default disposition), or in the middle of a write call' if crash else
                              '; the fault is an exception raised by the storage, the save runs inside the real run_or_load_task') +
               '; quick samples the write-call boundaries; non-trivial = at least one effect completed' +
               ('' if crash else '; plus an exception / KeyboardInterrupt raised at executed lines of cache.py and storage.py below BaseCache.save '
